@@ -1,3 +1,4 @@
+import re
 from mindsdb_sql.parser.ast.base import ASTNode
 from mindsdb_sql.parser.utils import indent
 from mindsdb_sql.parser.ast.create import TableColumn
@@ -77,9 +78,19 @@ class Insert(ASTNode):
                   f'{ind})\n'
         return out_str
 
+    @staticmethod
+    def column_to_string(name):
+        # the mysql / sqlite grammars store a quoted column name without its back-quotes, the mindsdb grammar with them
+        # (a plain word stays as it is - also a keyword, which the mindsdb grammar reads bare in a column list and would
+        # store WITH the quotes if they were added here)
+        if not isinstance(name, str) or re.fullmatch(r'[a-zA-Z_$0-9]*[a-zA-Z_$]+[a-zA-Z_$0-9]*', name) \
+                or (len(name) > 1 and name[0] == '`' and name[-1] == '`'):
+            return str(name)
+        return f'`{name}`'
+
     def get_string(self, *args, **kwargs):
         if self.columns is not None:
-            cols = ', '.join([i.name for i in self.columns])
+            cols = ', '.join([self.column_to_string(i.name) for i in self.columns])
             columns_str = f'({cols})'
         else:
             columns_str = ''
